@@ -1734,6 +1734,21 @@ class OwnerHist:
                 tree = (tree[0], [(n, raw_state(new) if jj == j else r) for jj, (n, r) in enumerate(tree[1])], tree[2])
                 self.vars[v] = (kind, tree)
 
+    def set_to(self, v, name, text):
+        """one assignment of the given wire text (e.g. `si 0`) to parameter `name` of variable v (no-op if v has no such parameter)"""
+        kind, tree = self.vars[v]
+        names = [n for n, _ in tree[1]]
+        if name not in names:
+            return False
+        j = names.index(name)
+        self.ops.append(f"set {v} {q(name)} {text}")
+        op, args, _ = read_op(Toks(text))
+        new, expect = ref_step(conv_state(tree[1][j][1]), op, args)
+        if expect[0] == "ok" and new is not None:
+            tree = (tree[0], [(n, raw_state(new) if jj == j else r) for jj, (n, r) in enumerate(tree[1])], tree[2])
+            self.vars[v] = (kind, tree)
+        return True
+
     def inst(self, d, child, s):
         self.ops.append(f"inst {d} {child} {s}")
         self.vars[d] = (self.vars[d][0], with_kid(self.vars[d][1], child, self.vars[s][1]))
@@ -1986,10 +2001,28 @@ def probe_hist(rng, entries, kind, id_):
     return h.line()
 
 
+def splitter_bounds_hist(rng, entries, id_):
+    """a splitter with its seed at an END of the declared domain (0, 1024): every value of the domain is an ordinary seed, so the
+    clone must split like the original (seeded change C19-g1: k-fold treating seed 0 as 'no seed' and drawing from random_device)"""
+    h = OwnerHist(rng, entries)
+    v = h.new("splitter", id_)
+    for text in ("si 0", "si 1024", "si 1"):
+        if not h.set_to(v, "splitter::seed", text):
+            return None
+        c = h.clone(v)
+        h.probe(v, c)
+    return h.line()
+
+
 def owner_ops(rng, entries, thorough):
     if not entries or not getattr(entries, "owners", None):
         return []
     ops = []
+    for e in entries:
+        if e[0] == "splitter":
+            line = splitter_bounds_hist(rng, entries, e[1])
+            if line:
+                ops.append(line)
     for e in entries:
         if e[0] in ("lsearchk", "tuner", "wlearner"):
             for _ in range(3 if thorough else 1):
